@@ -5,6 +5,7 @@ An *op* is a dict in the driver's wire vocabulary, with session ids written as n
 (s0, s1, ... by order of allocation).  `Runner.do(op)` performs it on the implementation and
 returns the canonical observation; `model_run(cfg, ops)` returns the model's observations.
 """
+import asyncio
 import copy
 import json
 
@@ -184,8 +185,13 @@ class Runner:
             if op.get('cb') is not None:
                 tok = op['cb']
 
-                def cb(*args, tok=tok):
-                    self.records.append(('callback', tok, list(args)))
+                if self.coro:
+                    async def cb(*args, tok=tok):
+                        self.records.append(('callback', tok, list(args)))
+                        await asyncio.sleep(0)        # a suspension point inside the application callback
+                else:
+                    def cb(*args, tok=tok):
+                        self.records.append(('callback', tok, list(args)))
                 kw['callback'] = cb
             res = w.api('emit', op['ev'], copy.deepcopy(op['data']), namespace=op['ns'], **kw)
         elif kind == 'call':
@@ -208,12 +214,31 @@ class Runner:
             res = w.api('save_session', self.real(op['sid']), copy.deepcopy(op['v']), namespace=op['ns'])
         elif kind == 'session_block':
             res = self._session_block(op)
+        elif kind == 'burst':
+            res, contained = self._burst(op)
         elif kind == 'settle':
             errs = w.settle()
             contained = [('bg', e) for e in errs]
         else:
             raise ValueError(kind)
         return self._observe(op, res, contained)
+
+    def _burst(self, op):
+        """several frames at once: concurrently (one task each) on the asyncio server, one after the
+        other on the threaded one"""
+        from engineio import packet as eio_packet
+        before = len(self.w.eio_log.errors)
+        if self.w.is_async:
+            async def go():
+                await asyncio.gather(*[
+                    self.w.socks[f['t']].receive(eio_packet.Packet(
+                        eio_packet.MESSAGE, f['text'] if f['op'] == 'frame' else f['v'])) for f in op['frames']])
+            res = self.w.run(go)
+        else:
+            res = ('ok', None)
+            for f in op['frames']:
+                self.w.recv(f['t'], f['text'] if f['op'] == 'frame' else f['v'])
+        return res, self.w.eio_log.errors[before:]
 
     def _session_block(self, op):
         sid = self.real(op['sid'])
@@ -335,7 +360,7 @@ class Runner:
             sends[tid] = [self.names.rename_text(f) if isinstance(f, str) else
                           (self._canon(f) if isinstance(f, dict) else f) for f in sends[tid]]
         obs = {'sends': sends, 'invokes': [], 'callbacks': [], 'result': None, 'exc': None,
-               'raised': bool(contained), 'handler_raised': 0}
+               'raised': bool(contained), 'handler_raised': 0, 'deferred': len(self.w.background)}
         for r in self.records:
             if r[0] == 'invoke':
                 obs['invokes'].append((r[1], self._canon(r[2])))
@@ -491,6 +516,8 @@ def op_wire(op):
 
 
 def representable(op):
+    if op['op'] == 'burst':
+        return all(representable(o) for o in op['frames'])
     if op['op'] == 'frame':
         try:
             return frame_tables(op['text']) is not None
@@ -530,9 +557,29 @@ def model_obs(ans):
 
 
 def model_run(cfg, ops):
-    lines = [cfg_wire(cfg)] + [op_wire(o) for o in ops]
+    flat = []
+    for o in ops:
+        flat.extend(o['frames'] if o['op'] == 'burst' else [o])
+    lines = [cfg_wire(cfg)] + [op_wire(o) for o in flat]
     answers = C.batch('server', lines + [{'op': 'snapshot'}])
-    return [model_obs(a) for a in answers[1:-1]], answers[-1]
+    obs = [model_obs(a) for a in answers[1:-1]]
+    out = []
+    i = 0
+    for o in ops:
+        if o['op'] != 'burst':
+            out.append(obs[i])
+            i += 1
+            continue
+        m = {'sends': {}, 'invokes': [], 'callbacks': [], 'result': None, 'exc': None, 'raised': False, 'timeout': False}
+        for _ in o['frames']:
+            for t, fr in obs[i]['sends'].items():
+                m['sends'].setdefault(t, []).extend(fr)
+            m['invokes'] += obs[i]['invokes']
+            m['callbacks'] += obs[i]['callbacks']
+            m['raised'] = m['raised'] or obs[i]['raised']
+            i += 1
+        out.append(m)
+    return out, answers[-1]
 
 
 # ------------------------------------------------------------------ comparison
@@ -547,7 +594,7 @@ def compare(op, impl, model):
     if impl['sends'] != model['sends']:
         diffs.append('sends differ: impl=%r model=%r' % (impl['sends'], model['sends']))
     ii, mi = impl['invokes'], model['invokes']
-    if op['op'] == 'lost':
+    if op['op'] == 'lost' or (op['op'] == 'call' and any(o['op'] == 'lost' for o in op['during'])):
         ii, mi = _sorted_invokes(ii), _sorted_invokes(mi)
     if len(ii) != len(mi) or any(a[0] != b[0] or not C.same(list(a[1]), list(b[1])) for a, b in zip(ii, mi)):
         diffs.append('handler invocations differ: impl=%r model=%r' % (ii, mi))
@@ -575,7 +622,7 @@ def compare(op, impl, model):
             diffs.append('%s: impl exc=%r model raised=%r' % (k, impl['exc'], model['raised']))
         elif not impl['exc'] and k in ('get_session', 'session_block') and not C.same(impl['result'], model['result']):
             diffs.append('%s result: impl=%r model=%r' % (k, impl['result'], model['result']))
-    elif k in ('frame', 'frameval'):
+    elif k in ('frame', 'frameval', 'burst'):
         # exceptions escaping the message handler are contained (and logged) by engine.io
         ir = impl['raised'] or impl['handler_raised'] > 0
         if ir != model['raised']:
@@ -852,3 +899,17 @@ def error_args(args):
     elif len(args) > 2:
         d['data'] = list(args[1:])
     return d
+
+
+def event_target(cfg, ns, ev):
+    """documented precedence for an ordinary event: -> 'fn' / 'cls' (method exists) / 'cls-nomethod' / None"""
+    fns = [tuple(f) for f in cfg['fn']]
+    if (ns, ev) in fns or (ns, '*') in fns or ('*', ev) in fns or ('*', '*') in fns:
+        return 'fn'
+    for cns, ms in cfg['cls']:
+        if cns == ns:
+            return 'cls' if ('on_' + ev) in ms else 'cls-nomethod'
+    for cns, ms in cfg['cls']:
+        if cns == '*':
+            return 'cls' if ('on_' + ev) in ms else 'cls-nomethod'
+    return None
